@@ -36,7 +36,8 @@ def scenarios(tier):
     base = dict(prop="C01", monitors=("c01",), key_depth=False, emax=1 if q else 2, probe_kinds=("true",))
     cap = 120000 if q else 3000000
     out = [
-        Scenario("c01-points-retract", World, dict(base, regions=["R"]), POINTS_RETRACT, max_states=cap,
+        Scenario("c01-points-retract", World, dict(base, regions=["R"]),
+                 [e for e in POINTS_RETRACT if not q or e not in (("TRAVEL", "Bd"), ("PRINT", "O1"))], max_states=cap,
                  note="closed borders (Bd on the disc border is unused here; Br on the rectangle border), "
                       "retract/recover/wipe inside and outside"),
         Scenario("c01-at-axis", World, dict(base, regions=["R", "D"]),
